@@ -112,7 +112,20 @@ func (c *Config) parseBuffer(buf *bufio.Reader) error {
 			}
 		}
 		lineNum++
-		line, _, err := buf.ReadLine()
+		line, isPrefix, err := buf.ReadLine()
+		if isPrefix && err == nil {
+			// the line is longer than the reader's buffer: keep reading until its end
+			line = append([]byte(nil), line...)
+			for isPrefix && err == nil {
+				var rest []byte
+				rest, isPrefix, err = buf.ReadLine()
+				line = append(line, rest...)
+			}
+			if err == io.EOF {
+				// the accumulated line is complete; the next read reports EOF again
+				err = nil
+			}
+		}
 		if err == io.EOF {
 			// force write when buffer is not flushed yet
 			if buffer.Len() > 0 {
